@@ -45,12 +45,16 @@ def _shrink_request(req, still_differs):
     return "\t".join(fields[:-1] + [" ".join(items)])
 
 
-def differs_one(ctx, req):
+def differs_one(ctx, req, binary=None):
     p = ctx.path("one.req")
     with open(p, "w", encoding="utf-8") as f:
         f.write(req + "\n")
-    impl, model = t2nlib.run_both(p, ctx.work, "one")
+    impl, model = t2nlib.run_both(p, ctx.work, "one", binary=binary)
     return impl != model
+
+
+PLAIN_CAP = 60000
+PLAIN_STRIDE = 37
 
 
 def run_requests(ctx, tag, gen):
@@ -96,6 +100,7 @@ def run_requests(ctx, tag, gen):
     keep = tag == "script" or tag == "ds" or tag == "lookup" or tag.startswith("scan_")
     reqs_k, impl_k = [], []
     samples = []
+    plain_rq, plain_lb = [], []
     with open(reqp, encoding="utf-8") as fr, open(a, encoding="utf-8") as fa, open(b, encoding="utf-8") as fb:
         for rq in fr:
             rq = rq.rstrip("\n")
@@ -119,11 +124,40 @@ def run_requests(ctx, tag, gen):
                 ndis += 1
                 if len(dis) < 200:
                     dis.append({"request": rq, "impl": la[:600], "model": lb[:600]})
+            elif len(plain_rq) < PLAIN_CAP and (n <= 4000 or n % PLAIN_STRIDE == 0) and tag != "ds":
+                plain_rq.append(rq)
+                plain_lb.append(lb)
+    # the build without debug assertions (code inside `debug_assert!` is not executed there) answers a sample of the
+    # same requests; the model's answers are the reference again
+    nplain = 0
+    if plain_rq and os.path.exists(t2nlib.HARNESS_PLAIN):
+        pr, pa = reqp + ".plain", a + ".plain"
+        with open(pr, "w", encoding="utf-8") as f:
+            f.write("\n".join(plain_rq) + "\n")
+        rc3, e3 = t2nlib.run_exec(t2nlib.HARNESS_PLAIN, pr, pa)
+        with open(pa, encoding="utf-8") as f:
+            got = f.read().split("\n")
+        for i, rq in enumerate(plain_rq):
+            la = got[i] if i < len(got) - (0 if rc3 == 0 else 1) else "ABORT rc=%d" % rc3
+            nplain += 1
+            if la != plain_lb[i]:
+                ndis += 1
+                if len(dis) < 200:
+                    dis.append({"request": rq, "impl": la[:600], "model": plain_lb[i][:600], "build": "no-debug-assertions"})
+            if la.startswith("ABORT"):
+                break
+        for f_ in (pr, pa):
+            try:
+                os.unlink(f_)
+            except OSError:
+                pass
+    ctx.plain_requests = getattr(ctx, "plain_requests", 0) + nplain
     for d in dis[:3]:
         if d["request"].startswith("<"):
             continue
         try:
-            d["shrunk"] = _shrink_request(d["request"], lambda r: differs_one(ctx, r))
+            hb = t2nlib.HARNESS_PLAIN if d.get("build") else None
+            d["shrunk"] = _shrink_request(d["request"], lambda r: differs_one(ctx, r, hb))
         except Exception as e:  # shrinking is best effort
             d["shrunk_error"] = str(e)
     ctx.samples.setdefault(tag, []).extend(samples)
